@@ -55,7 +55,13 @@ def setup(eng):
     eng.builtins["__builtins__"] = None
     gm = eng.load_module(MOD)
     gcls = eng.module_global(gm, "SympyGenerator")
-    return VObj(gcls, {"src": VDict()}), AstFactory(eng)
+    # the generator as its REAL constructor makes it (so that every field __init__ sets exists)
+    try:
+        g = eng.call(gcls, [], {})
+    except (Unsupported, PyRaise):
+        g = VObj(gcls, {})
+    g.fields["src"] = VDict()
+    return g, AstFactory(eng)
 
 
 def parse_expr(text):
